@@ -269,7 +269,7 @@ func (cf *clientFormat) writePacketRTP(pkt *rtp.Packet, ntp time.Time) error {
 
 	maxPlainPacketSize := cf.cm.c.MaxPacketSize
 	if cf.cm.srtpOutCtx != nil {
-		maxPlainPacketSize -= srtpOverhead
+		maxPlainPacketSize -= cf.cm.srtpOutCtx.rtpOverhead()
 	}
 
 	plain := make([]byte, maxPlainPacketSize)
